@@ -76,6 +76,20 @@ def step (o : Obs) (line : String) : Obs × String :=
            | none => "-")
         else "-"
       (o', s!"{showResult r} during={during} after={showCounters o'} len={o'.len}")
+  -- overlapping streams: `hold <serverShard>` = a well-formed stream for that shard is opened and kept open (the +1 report),
+  -- `release <serverShard>` = one of them ends (the −1 report); the observation is the active list and the counter length
+  | ["hold", idx] =>
+    match idx.toInt? with
+    | some idx => (match report o idx 1 with
+      | some (o', _) => (o', s!"{showCounters o'} len={o'.len}")
+      | none => (o, "wedged"))
+    | none => (o, "bad-op")
+  | ["release", idx] =>
+    match idx.toInt? with
+    | some idx => (match report o idx (-1) with
+      | some (o', _) => (o', s!"{showCounters o'} len={o'.len}")
+      | none => (o, "wedged"))
+    | none => (o, "bad-op")
   | ["report", idx, v] =>
     match idx.toInt?, v.toInt? with
     | some idx, some v =>
